@@ -21,9 +21,17 @@ type rpcServer struct {
 	spacesyncproto.DRPCSpaceSyncUnimplementedServer
 	svc  kvinterfaces.KeyValueService
 	done chan error // one entry per finished StoreElements handler
+	// schedule points (run in the server goroutine while the client is blocked in the RPC)
+	onDiff     func(n int) // before answering the n-th StoreDiff request (n = 1, 2, …)
+	onElements func()      // the client has computed its diff and opened the element stream
+	ndiff      int
 }
 
 func (t *rpcServer) StoreDiff(ctx context.Context, req *spacesyncproto.StoreDiffRequest) (*spacesyncproto.StoreDiffResponse, error) {
+	t.ndiff++
+	if t.onDiff != nil {
+		t.onDiff(t.ndiff)
+	}
 	return t.svc.HandleStoreDiffRequest(ctx, req)
 }
 
@@ -34,6 +42,9 @@ func (t *rpcServer) StoreElements(stream spacesyncproto.DRPCSpaceSync_StoreEleme
 	}
 	if msg.SpaceId == "" {
 		return errors.New("verif: first stream message carries no space id")
+	}
+	if t.onElements != nil {
+		t.onElements()
 	}
 	// Background context, as in the repo's own fixture: the server persists the pushed values after it
 	// has sent its terminator, and the client's ReleaseDrpcConn closes a connection whose stream is not
@@ -60,14 +71,17 @@ func (s *store) pushMessage(kvs []*spacesyncproto.StoreKeyValue) error {
 }
 
 // syncOnce: store a (client) runs one real syncWithPeer against store b (server).
-func syncOnce(a, b *store) error {
+func syncOnce(a, b *store) error { return syncOnceHooked(a, b, nil, nil) }
+
+// syncOnceHooked: as syncOnce, with actions injected at the two schedule points of the server.
+func syncOnceHooked(a, b *store, onDiff func(n int), onElements func()) error {
 	svcA, svcB := a.service(), b.service()
 	srvA, srvB := rpctest.NewTestServer(), rpctest.NewTestServer()
 	if err := spacesyncproto.DRPCRegisterSpaceSync(srvA, &rpcServer{svc: svcA}); err != nil {
 		return err
 	}
 	handlerDone := make(chan error, 4)
-	if err := spacesyncproto.DRPCRegisterSpaceSync(srvB, &rpcServer{svc: svcB, done: handlerDone}); err != nil {
+	if err := spacesyncproto.DRPCRegisterSpaceSync(srvB, &rpcServer{svc: svcB, done: handlerDone, onDiff: onDiff, onElements: onElements}); err != nil {
 		return err
 	}
 	serverConn, clientConn := rpctest.MultiConnPair(a.owner.peerId, b.owner.peerId+"-srv")
